@@ -149,7 +149,7 @@ pub fn dump_flag_rule(cx: &Cx, rep: &mut Report) {
 thread_local! { static DFC: std::cell::RefCell<std::collections::BTreeSet<(bool, bool, bool)>> = Default::default(); static DFW: std::cell::RefCell<Vec<String>> = Default::default(); }
 
 // =============================================================================================== C15
-pub fn c15(cx: &Cx) -> i32 {
+pub fn c15_report(cx: &Cx) -> Report {
     let mut rep = cx.report("C15");
     let ix = &cx.ix;
     // ES-shared-core: both entry points reach the same two cores
@@ -289,6 +289,10 @@ pub fn c15(cx: &Cx) -> i32 {
     crate::props::gate_check(cx, &mut rep, &[0, 1, 2, 3, 4], "");
     // the other helper attributes: default / debug recognised iff their trait is derived
     other_gates_rule(cx, &mut rep);
+    rep
+}
+pub fn c15(cx: &Cx) -> i32 {
+    let mut rep = c15_report(cx);
     rep.assumptions = vec!["token-for-token equality of the two entry points' output follows from their sharing the cores with the same inputs; it is not evaluated on concrete items".into(), "the item carries no helper attribute that belongs only to other traits (the property's own hypothesis)".into()];
     rep.finish("other", "static analysis: both proc-macro entry points reach the same cores, which are called with the macro arguments (or none), the input item (or a field-by-field copy) and a fresh helper-attribute set; argument lists are merged macro-arguments-first then attribute order, entries are one per listed trait in order with data from their own list only, each entry is emitted in sequence independently; an attribute is recognised whenever a derived trait is affected by it, for all 31 derived sets", "rule instances = (rule, function / derived set)")
 }
@@ -324,7 +328,7 @@ pub fn other_gates_rule(cx: &Cx, rep: &mut Report) {
 thread_local! { static PARSER: std::cell::RefCell<String> = Default::default(); static KINDS: std::cell::RefCell<Option<String>> = Default::default(); }
 
 // =============================================================================================== C14
-pub fn c14(cx: &Cx) -> i32 {
+pub fn c14_report(cx: &Cx) -> Report {
     let mut rep = cx.report("C14");
     // what is stripped is decided by the helper-kind set: it must have been filled from the item's own entries
     crate::misc::kinds_filled_rule(cx, &mut rep);
@@ -511,6 +515,10 @@ pub fn c14(cx: &Cx) -> i32 {
             rep.check(ok_seen && err_seen && err_good, "ES-entry-emit", &e.qual, "parse-error-keeps-item", "when the item cannot be processed the original tokens are not re-emitted with the error appended", &site(&e), json!({"ok path seen": ok_seen, "error path seen": err_seen}));
         }
     } else { rep.fail("unanalysable", "build", "not-found", "the attribute entry's build function not found", "lib.rs", json!({})); }
+    rep
+}
+pub fn c14(cx: &Cx) -> i32 {
+    let mut rep = c14_report(cx);
     rep.assumptions = vec!["`ToTokens for Item*` re-emits the parsed item faithfully (syn, trusted)".into(), "the cores and the impl builder take the item by shared reference, so only the two wrappers can change it (type-enforced)".into()];
     rep.finish("other", "static analysis: the strip predicate is extracted as a function of (attribute name, derived set) and compared with the documentation's assignment for all 128 sets of derived traits (single-identifier names only; never a foreign name), and with the parse gate; the two wrappers remove attributes from exactly the item, its variants and their fields and mutate nothing else; `build` emits the item before the generated tokens or the compile error, and keeps the original tokens on a parse error", "rule instances = (rule, attribute name x derived set / wrapper / entry)")
 }
